@@ -167,7 +167,7 @@ def _function_over_one_var(repr_func, raw_func, x, out=None, out_like=None, sizi
     else:
         config = x.config
 
-    if method == 'repr' or x.scaled or n_frac is None:
+    if method == 'repr' or x.scaled or (out is not None and out.scaled) or n_frac is None:
         raw = False
         val = repr_func(x.get_val(), **kwargs)
     elif method == 'raw':
@@ -219,7 +219,7 @@ def _function_over_two_vars(repr_func, raw_func, x, y, out=None, out_like=None, 
     else:
         config = x.config
 
-    if method == 'repr' or x.scaled or n_frac is None:
+    if method == 'repr' or x.scaled or y.scaled or (out is not None and out.scaled) or n_frac is None:
         raw = False
         val = repr_func(_signed_value(x.get_val(), x.n_word + y.n_word), _signed_value(y.get_val(), x.n_word + y.n_word), **kwargs)
     elif method == 'raw':
